@@ -527,10 +527,7 @@ def cov_start():
     if _COV["on"]:
         return
     mon = sys.monitoring
-    try:
-        mon.use_tool_id(_TOOL, "scanruleslib")
-    except ValueError:
-        return
+    vlib.claim_tool(_TOOL, "scanruleslib")
     wanted = tuple("rule_md_%s.py" % r[2:] for r in RULE_IDS)
 
     def on_line(code, line):
